@@ -429,7 +429,7 @@ def check_consume(ctx, rule):
                 bad = True
                 continue
             end = src.args[1].args[1]
-            stores = [e for e in evs if e.kind == "store" and e.data.get("attr") == "data" and show(e.data["base"]) == "self" and e.fn is f]
+            stores = [e for e in evs if e.kind == "store" and e.data.get("attr") == "data" and show(e.data["base"]) == "self"]
             consume = [e for e in stores if isinstance(e.data["value"], Term) and e.data["value"].op == "sub" and isinstance(e.data["value"].args[1], Term) and e.data["value"].args[1].op == "slice" and e.data["value"].args[1].args[0] is end]
             if len(consume) != 1 or len(stores) != 1:
                 ctx.violated(rule, f.short, f"the buffer is not truncated by exactly the length of the parsed prefix ({[show(e.data['value'])[:50] for e in stores]} vs prefix end {show(end)[:40]}): characters are lost or delivered twice", fi=f, text="consume-mismatch")
@@ -441,7 +441,7 @@ def check_consume(ctx, rule):
             # nothing modifies the buffer between the scan and the truncation
             findcall = [e for e in evs if e.kind == "call" and is_call(e.data["term"], method=roles(ctx.p)["FIND"])]
             if findcall:
-                between = [e for e in evs if findcall[0].idx < e.idx < consume[0].idx and ((e.kind == "store" and e.data.get("attr") in ("data", "buffer")) or (e.kind == "call" and any(is_call(e.data["term"], method=m) for m in (roles(ctx.p)["RESYNC"], roles(ctx.p)["DROP1"], "append", "write"))))]
+                between = [e for e in evs if findcall[0].idx < e.idx < consume[0].idx and ((e.kind == "store" and e.data.get("attr") in ("data", "buffer")) or (e.kind == "call" and not e.data.get("inlined") and any(is_call(e.data["term"], method=m) for m in (roles(ctx.p)["RESYNC"], "append", "write"))))]
                 if between:
                     ctx.violated(rule, f.short, "the buffer is modified between locating the message and removing it", fi=f, text="modified-between")
                     bad = True
@@ -463,13 +463,98 @@ def _find_leaves(t, out):
         out.append(t)
 
 
+def stringio_model(it, callee, args, kw):
+    """io.StringIO as used by the buffer (constructor, write, getvalue, tell) on constant text."""
+    if isinstance(callee, Foreign) and callee.dotted.split(".")[-1] == "StringIO":
+        return Obj(None, {"text": Const(args[0].v if args and isinstance(args[0], Const) and isinstance(args[0].v, str) else "")}, label="<StringIO>")
+    if isinstance(callee, Term) and callee.op == "attr" and isinstance(callee.args[0], Obj) and callee.args[0].label == "<StringIO>":
+        o, m = callee.args[0], callee.args[1]
+        if m == "write" and args and isinstance(args[0], Const) and isinstance(args[0].v, str):
+            o.attrs["text"] = Const(o.attrs["text"].v + args[0].v)
+            return Const(len(args[0].v))
+        if m == "getvalue":
+            return o.attrs["text"]
+        if m == "tell":
+            return Const(len(o.attrs["text"].v))
+    return None
+
+
+CAT_TAGS = ["getProperties", "oneLight", "setLightVector"]
+CAT_PIECES = ["x", "<", ">", "<foo", "<getProperties", "<oneLight", "<setLightVector", " a='1'>", "</foo>"]
+
+
+def resync_oracle(data: str) -> str:
+    """What is left after resynchronisation: everything from the earliest known start tag; without one, everything from
+    the last '<' (it may be the beginning of a message still arriving); without any '<', nothing."""
+    pos = [data.find("<" + t) for t in CAT_TAGS if data.find("<" + t) >= 0]
+    if pos:
+        return data[min(pos):]
+    r = data.rfind("<")
+    return data[r:] if r >= 0 else ""
+
+
+def resync_catalogue(ctx, f, depth=3):
+    """The resynchroniser evaluated by the abstract interpreter on a catalogue of constant buffer contents (all
+    concatenations of up to 'depth' pieces: junk, '<', '>', unknown and known start tags, attribute text, an end tag) with a
+    three-tag vocabulary in which one tag is a prefix-free sibling of another ('oneLight' inside 'setLightVector' messages).
+    -> (number evaluated, [(input, got, expected)])"""
+    import itertools as _it
+    p = ctx.p
+    Bc = buf_cls(p)
+    inputs = [""]
+    for k in range(1, depth + 1):
+        inputs.extend("".join(c) for c in _it.product(CAT_PIECES, repeat=k))
+    mism = []
+    n = 0
+    for s_ in inputs:
+        def run(it: Interp, s_=s_):
+            o = Obj(Bc, {}, label="buf")
+            o.attrs["buffer"] = Obj(None, {"text": Const(s_)}, label="<StringIO>")
+            o.attrs["allowed_tags"] = __import__("indilint.absint", fromlist=["Lst"]).Lst([Const(t) for t in CAT_TAGS])
+            o.attrs["max_buffer_size_before_frontal_cleanup"] = Const(2048)
+            it.o = o
+            return it.run_function(Fn(f, o), [], {})
+
+        paths = explore(p, run, {"inline": lambda fi, node: fi.cls is Bc, "foreign_model": stringio_model, "max_for": 12, "max_while": 12, "max_steps": 200000})
+        ctx.paths_enumerated += len(paths)
+        n += 1
+        want = resync_oracle(s_)
+        if len(paths) != 1:
+            mism.append((s_, f"{len(paths)} paths (not decided by constant evaluation)", want))
+            if len(mism) > 5:
+                break
+            continue
+        pa = paths[0]
+        buf = pa.interp.o.attrs.get("buffer")
+        got = buf.attrs["text"].v if pa.outcome == "return" and isinstance(buf, Obj) and isinstance(buf.attrs.get("text"), Const) else f"<{pa.outcome}: {show(pa.value)[:40] if pa.value is not None else ''}>"
+        if got != want:
+            mism.append((s_, got, want))
+            if len(mism) > 5:
+                break
+    return n, mism
+
+
 def check_discard(ctx, rule):
     """Provenance of every buffer truncation outside the consumption."""
     p = ctx.p
     B = buf_cls(p)
     f = B.find_method(roles(p)["RESYNC"])
+    # decider: constant evaluation on the catalogue; the symbolic provenance analysis below, where it recognises the idioms,
+    # upgrades the statement from the catalogue to every input
+    ncat, mism = resync_catalogue(ctx, f, depth=3 if ctx.tier != "thorough" else 4)
+    ctx.counters[f"{rule}:resynchroniser catalogue inputs"] = ncat
+    for s_, got, want in mism[:3]:
+        undec = "paths (not decided" in str(got)
+        (ctx.undecided if undec else ctx.violated)(rule, f.short, f"on buffer content {s_!r} the resynchroniser leaves {got!r}, expected {want!r} (everything from the earliest known start tag; else from the last '<'; else nothing): " + ("a message in front of the cut is lost" if len(str(got)) < len(want) else "junk in front of a message is kept, or a partially received message is cut"), **({"fi": f} if undec else {"fi": f, "text": "resync-catalogue:" + ("short" if len(str(got)) < len(want) else "long"), "witness": s_}))
+    sym_findings = []
+
+    class _Collect:
+        def violated(self, rule_, inst, msg, **kw):
+            sym_findings.append(msg)
+
+    real_ctx, ctx = ctx, _Collect()
     paths = run_method(p, f, opts={"max_for": 2})
-    ctx.paths_enumerated += len(paths)
+    real_ctx.paths_enumerated += len(paths)
     bad = False
     n = 0
     for pa in paths:
@@ -534,10 +619,12 @@ def check_discard(ctx, rule):
             if not zero and not any(it.bounds_of(t) == (0, 0) for t in tagfinds):
                 ctx.violated(rule, f.short, "the search over the known tags stops early without having found position 0", fi=f, text="tags-early-exit")
                 bad = True
-    if n == 0:
-        ctx.undecided(rule, f.short, "no truncation found in _cleanup_buffer", fi=f)
-    elif not bad:
-        ctx.holds(rule, f.short, f"{n} truncations over {len(paths)} paths: earliest known tag, else last '<', else discard-all only when neither exists", fi=f)
+    ctx = real_ctx
+    if not mism:
+        if n and not sym_findings:
+            ctx.holds(rule, f.short, f"{n} truncations over {len(paths)} symbolic paths: earliest known tag, else last '<', else discard-all only when neither exists (all inputs); {ncat} catalogue inputs agree", fi=f)
+        else:
+            ctx.holds(rule, f.short, f"{ncat} catalogue inputs: what is left is everything from the earliest known start tag, else from the last '<', else nothing (the symbolic provenance analysis does not recognise this way of writing the search, so the statement is limited to the catalogue)", fi=f)
     # the blind frontal drop, wherever it is written (inline, in a helper, as _discard(1)): every truncation performed in an
     # iteration of process() - the resynchroniser aside - is either the removal of a scanned prefix (decided by
     # CONSUME / RECOVER) or drops exactly one character; the latter only after 'length > threshold' was established on a
@@ -555,7 +642,17 @@ def check_discard(ctx, rule):
                 v = e.data["value"]
                 lo = v.args[1].args[0] if isinstance(v, Term) and v.op == "sub" and isinstance(v.args[1], Term) and v.args[1].op == "slice" else None
                 if not (isinstance(lo, Const) and isinstance(lo.v, int)):
-                    continue  # a scanned prefix (symbolic end): CONSUME / RECOVER
+                    # a symbolic cut must be the end of a prefix that the scan of this iteration handed to the message
+                    # parser (delivered: CONSUME, rejected: RECOVER); anything else drops text nobody looked at
+                    ends = []
+                    for x in evs:
+                        if x.idx < e.idx and x.kind == "call" and is_call(x.data["term"], method="from_string") and x.data["args"]:
+                            a_ = x.data["args"][0]
+                            if isinstance(a_, Term) and a_.op == "sub" and isinstance(a_.args[1], Term) and a_.args[1].op == "slice" and a_.args[1].args[0] is None:
+                                ends.append(show(a_.args[1].args[1]))
+                    if lo is None or show(lo) not in ends:
+                        okc, why = False, f"the buffer is cut at {show(lo)[:60] if lo is not None else show(v)[:60]}, which is neither the end of a prefix handed to the message parser in this iteration nor the single-character drop: text that may belong to a valid message is discarded unseen"
+                    continue
                 ndrop += 1
                 if classify_store(pa.interp, v) != ("suffix", 1) or lo.v != 1:
                     okc, why = False, f"a constant truncation {show(v)[:40]} that is not the single-character drop"
